@@ -37,6 +37,10 @@ def gen_cases(rng, tier: str) -> list[dict]:
         if h % 4 == 0:
             for ops in H.directed_prefixes(rng, pool):
                 cases.append({"origin": "directed", "pool": texts, "ops": ops + H.random_ops(rng, pool, 3)})
+        if h % 2 == 0:
+            pool2 = H.sum_pool(rng) if h % 4 == 0 else pool
+            cases.append({"origin": "resimplify", "pool": H.pool_to_wire(pool2),
+                          "ops": H.repeated_simplification(rng, pool2)})
     return cases
 
 
